@@ -22,6 +22,8 @@ pub fn vx_with_capacity<X>(capacity: usize) -> (r: Vec<X>)
     ensures r@.len() == 0,
 { unimplemented!() }
 
+// @@INCLUDE stdx@@
+
 // @@EXTRACTED@@
 
 } // verus!
